@@ -98,7 +98,7 @@ func (f *fakeFS) CreateTemp(dir, pattern string) (gopro.VerifTempFile, error) {
 	if f.fault(kCreateTemp) {
 		return nil, errInjected
 	}
-	name := fmt.Sprintf("tmp/%s-%03d", pattern, f.temps)
+	name := fmt.Sprintf("tmp/gopro-process-%03d", f.temps) // the pattern is the code's business
 	f.temps++
 	f.m[name] = &fstest.MapFile{ModTime: time.Unix(999999, 0)}
 	return &fakeTemp{fs: f, name: name}, nil
